@@ -163,3 +163,11 @@ extend("C10", "one world in three holds every caller array in the non-native byt
 extend("C15", "unsigned / signed integer wavelength grids through append / resample / crop / pad programs (integer_grids).")
 extend("C16", "efficiency spectra whose raw wavelength array equals the cube's in another unit.")
 extend("C20", "drop lists with entries beyond both ends of the segment numbering.")
+
+# ---- round n
+extend("C03", "a tilt element carrying fitted tilt of its own after the segmented aperture.")
+extend("C07", "accumulation targets of exactly a displaced aperture block's size (stamp_insert).")
+extend("C08", "refused products whose plane also has another pixel scale than the wavefront (still TypeError).")
+extend("C11", "300..560-sample apertures symmetric about the array centre except for a few dead pixels (centroid 1e-5..1e-2 samples off centre).")
+extend("C17", "planes with rectangular samples (per-axis pixel scale) through rescale.")
+extend("C18", "sequence seeds (list / tuple / uint64 array) whose entries differ only above bit 31.")
